@@ -263,9 +263,6 @@ Proof.
   rewrite Nat.min_r by lia. rewrite firstn_all2; [reflexivity|]. rewrite skipn_length. lia.
 Qed.
 
-Lemma enum_from_map {A} (f : A -> pyval) k l :
-  enum_from k (map f l) = map (fun p => (fst p, f (snd p))) ((fix go (k : Z) (l : list A) := match l with [] => [] | x :: t => (zint k, x) :: go (k + 1) t end) k l).
-Proof. revert k; induction l as [|x t IH]; intro k; [reflexivity|]. cbn [map enum_from fst snd]. rewrite IH. reflexivity. Qed.
 
 (* ------------------------------------------------------------------ the field-level functions *)
 
@@ -2099,3 +2096,282 @@ Section Struct.
         destruct (df_compact fl); reflexivity.
   Qed.
 End Struct.
+
+(* ------------------------------------------------------------------ the model's own nesting: rec := deser_struct n *)
+
+Lemma deser_struct_step re_match e ens fl n ku cn j :
+  deser_struct re_match e ens fl (S n) ku cn j =
+  struct_step re_match e ens (deser_struct re_match e ens fl n) fl ku cn j.
+Proof. reflexivity. Qed.
+
+Lemma construct_bound re_match e c kw v : construct re_match e c kw = Ok v -> is_unbound v = false.
+Proof.
+  unfold construct. intro H.
+  destruct (has_dup (map fst kw)); [discriminate H|]. destruct (negb (bind_ok c kw)); [discriminate H|].
+  destruct (set_all re_match e c [] _) as [a0|]; [|discriminate H]. cbn [bind] in H.
+  destruct (set_all re_match e c a0 _) as [a1|]; [|discriminate H]. cbn [bind] in H.
+  destruct (set_all re_match e c a1 _) as [a2|]; [|discriminate H]. cbn [bind] in H.
+  destruct (hook_ok (c_hook c) a2); inversion H. reflexivity.
+Qed.
+
+Lemma deser_struct_bound re_match e ens fl : forall n ku cn j v,
+  deser_struct re_match e ens fl n ku cn j = Ok v -> is_unbound v = false.
+Proof.
+  intros [|n] ku cn j v H; [discriminate H|]. rewrite deser_struct_step in H. unfold struct_step in H.
+  destruct (find_class e cn) as [c|]; [|discriminate H]. destruct j;
+    try (destruct (if df_compact fl then compact_eligible c else None) as [fd|]; [|discriminate H];
+         destruct (deser_val _ _ _ _ _ _ _ _) as [w|]; [|discriminate H]; exact (construct_bound _ _ _ _ _ H)).
+  destruct (deser_fields _ _ _ _ _ _ _ _ _) as [kw|]; [|discriminate H]. cbn [bind] in H.
+  destruct (str_keys _) as [ex|]; [|discriminate H]. exact (construct_bound _ _ _ _ _ H).
+Qed.
+
+(* deserialize_structure_internal against deser_struct: level S n of the model, the nested class references resolved
+   by level n of the model *)
+Theorem src_structure_internal_eq re_match e ens fl h ext n fuel cn c m j name usm mapper ku ssv :
+  ext_agrees re_match e ens ext ->
+  ext_struct_agrees ext ->
+  find_class e cn = Some c ->
+  heap_models h fl cn c ->
+  ext_class_agrees re_match e ext cn c m ->
+  NoDup (map fd_name (c_fields c)) ->
+  struct_covered re_match e ens (deser_struct re_match e ens fl n) ku c j = true ->
+  (3 * fields_depth (c_fields c) <= fuel)%nat ->
+  src_deserialize_structure_internal h ext (struct_recs h ext (deser_struct re_match e ens fl n) fuel) (ref cn) j name usm
+                                     mapper (PBool ku) (PBool false) (PBool false) ssv =
+  deser_struct re_match e ens fl (S n) ku cn j.
+Proof.
+  intros Hext Hext2 Hfind HM HX Hnd Hcov Hfuel. rewrite deser_struct_step.
+  exact (src_structure_internal_step re_match e ens h ext (deser_struct re_match e ens fl n)
+           (deser_struct_bound re_match e ens fl n) Hext Hext2 fl fuel cn c m j name usm mapper ku ssv
+           Hfind HM HX Hnd Hcov Hfuel).
+Qed.
+
+(* ------------------------------------------------------------------ the oracle premises are satisfiable *)
+
+(* the leaf methods, read off the field objects *)
+Definition model_ext (re_match : N -> pystr -> bool) (e : env) (ens : enums) : extern :=
+  fun name args kw =>
+    if pystr_eqb name (meth_name (s2p "_validate")) then
+      match args, kw with
+      | [fo; j], [] =>
+          match leaf_of_py fo with
+          | Some f => if is_validated f then (_ <- validate_weak re_match e f j ;; Ok PNone) else Raise Unmodelled
+          | None => Raise Unmodelled
+          end
+      | _, _ => Raise Unmodelled
+      end
+    else if pystr_eqb name (meth_name (s2p "deserialize")) then
+      match args, kw with
+      | [fo; j], [] =>
+          match leaf_of_py fo with
+          | Some f => enum_deser re_match e ens f j
+          | None => Raise Unmodelled
+          end
+      | _, _ => Raise Unmodelled
+      end
+    else Raise Unmodelled.
+
+Lemma model_ext_agrees re_match e ens : ext_agrees re_match e ens (model_ext re_match e ens).
+Proof.
+  split; intros f j Hf.
+  - unfold model_ext. change (pystr_eqb (meth_name (s2p "_validate")) (meth_name (s2p "_validate"))) with true. cbv iota.
+    rewrite leaf_of_py_embed by (rewrite Hf; reflexivity). rewrite Hf. reflexivity.
+  - unfold model_ext. change (pystr_eqb (meth_name (s2p "deserialize")) (meth_name (s2p "_validate"))) with false.
+    change (pystr_eqb (meth_name (s2p "deserialize")) (meth_name (s2p "deserialize"))) with true. cbv iota.
+    rewrite leaf_of_py_embed by (rewrite Hf; apply orb_true_r). reflexivity.
+Qed.
+
+(* deserialize_single_field with the leaf methods read off the field objects: no premise about the oracle left *)
+Theorem src_single_field_model re_match e ens h rec f fuel ku ign j name mapper camel :
+  (forall ku c j v, rec ku c j = Ok v -> is_unbound v = false) ->
+  (3 * fdepth f <= fuel)%nat -> doc_ok j = true -> order_ok re_match e ens rec ku f j = true ->
+  r_deserialize_single_field (F h (model_ext re_match e ens) rec fuel) (fld_py f) j name mapper (PBool ku) camel (PBool ign) =
+  deser_val re_match e ens rec ku ign f j.
+Proof.
+  intros Hrec. exact (src_single_field_eq re_match e ens h (model_ext re_match e ens) rec Hrec
+                                          (model_ext_agrees re_match e ens) f fuel ku ign j name mapper camel).
+Qed.
+
+(* ------------------------------------------------------------------ examples: the side conditions hold of ordinary inputs;
+   where they fail, source and hand-written model DISAGREE (the real library follows the source) *)
+
+Definition ex_rec : bool -> pystr -> pyval -> res pyval := fun _ _ _ => Raise Unmodelled.
+Definition ex_re : N -> pystr -> bool := fun _ _ => true.
+Definition ex_heap : heap := fun _ _ => None.
+Definition ex_int : field := FNumber KInteger SAny no_numc.
+Definition ex_src (f : field) (j : pyval) : res pyval :=
+  r_deserialize_single_field (F ex_heap (model_ext ex_re [] []) ex_rec 20) (fld_py f) j (PStr (s2p "value")) PNone
+                             (PBool true) (PBool false) (PBool false).
+Definition ex_model (f : field) (j : pyval) : res pyval := deser_val ex_re [] [] ex_rec true false f j.
+
+(* a nested declaration and a JSON-like document that satisfy every side condition, and on which both sides
+   compute the same non-trivial value *)
+Definition ex_field : field :=
+  FAnyOf [FMapKV (FString no_strc) (FSeqEach SeqList ex_int no_sizec false) no_sizec;
+          FTuple [ex_int; FString no_strc] false].
+Definition ex_doc : pyval := PDict [(PStr (s2p "a"), PList [PNum (NInt 1); PNum (NInt 2)]); (PStr (s2p "b"), PList [])].
+
+Example side_conditions_satisfiable :
+  doc_ok ex_doc = true /\ order_ok ex_re [] [] ex_rec true ex_field ex_doc = true /\
+  (3 * fdepth ex_field <= 20)%nat /\
+  ex_src ex_field ex_doc = Ok ex_doc /\ ex_model ex_field ex_doc = Ok ex_doc.
+Proof. repeat split; try (vm_compute; reflexivity). vm_compute. lia. Qed.
+
+(* DISAGREEMENT 1 (deserialize_map): `res[key] = value` evaluates the value first; the model deserializes the key
+   first.  Map[String(maxLength=1), Integer] on {"abc": "x"}: the source (and the library) raise TypeError (the
+   value), the hand-written model ValueError (the key).  [order_ok] excludes exactly this. *)
+Definition ex_map : field := FMapKV (FString {| minLength := None; maxLength := Some 1; pattern := None |}) ex_int no_sizec.
+Definition ex_map_doc : pyval := PDict [(PStr (s2p "abc"), PStr (s2p "x"))].
+Example map_order_disagreement :
+  ex_src ex_map ex_map_doc = Raise TypeError /\ ex_model ex_map ex_map_doc = Raise ValueError /\
+  order_ok ex_re [] [] ex_rec true ex_map ex_map_doc = false.
+Proof. vm_compute. repeat split. Qed.
+
+(* DISAGREEMENT 2 (deserialize_list_like): isinstance(value, (list, tuple, set)) is False for a frozenset; the model's
+   list_like accepts it.  [doc_ok] (no set inside a document) excludes it. *)
+Example frozenset_disagreement :
+  ex_src (FSeqEach SeqList ex_int no_sizec false) (PSet true [PNum (NInt 1)]) = Raise ValueError /\
+  ex_model (FSeqEach SeqList ex_int no_sizec false) (PSet true [PNum (NInt 1)]) = Ok (PList [PNum (NInt 1)]).
+Proof. vm_compute. split; reflexivity. Qed.
+
+(* DISAGREEMENT 3 (deserialize_list_like, positional items): value[i] on a set is a TypeError (re-raised as
+   ValueError); the model reads the set as a list. *)
+Example set_positional_disagreement :
+  ex_src (FSeqPos SeqList [ex_int] no_sizec false None) (PSet false [PNum (NInt 1)]) = Raise ValueError /\
+  ex_model (FSeqPos SeqList [ex_int] no_sizec false None) (PSet false [PNum (NInt 1)]) = Ok (PList [PNum (NInt 1)]).
+Proof. vm_compute. split; reflexivity. Qed.
+
+(* ------------------------------------------------------------------ the structure-level premises are satisfiable *)
+
+(* the class objects and the two configuration objects, as a heap *)
+Definition class_heap (e : env) (fl : dflags) : heap :=
+  fun o a =>
+    if pystr_eqb o (s2p "TypedPyDefaults") then
+      if pystr_eqb a (s2p "ignore_invalid_additional_properties_in_deserialization") then Some (PBool (df_ignore_invalid fl))
+      else if pystr_eqb a (s2p "compact_deserialization_default") then Some (PBool (df_compact fl))
+      else if pystr_eqb a (s2p "additional_properties_default") then Some (PBool true)
+      else None
+    else if pystr_eqb o (s2p "Structure") then
+      if pystr_eqb a (s2p "failing_fast()") then Some (PBool true) else None
+    else
+      match find_class e o with
+      | Some c =>
+          if pystr_eqb a (s2p "get_all_fields_by_name()") then Some (PDict (enc_fields (c_fields c)))
+          else if pystr_eqb a (s2p "__dict__") then Some (PDict (class_dict_py c))
+          else if pystr_eqb a (s2p "_ignore_none") then Some (PBool (c_ignore_none c))
+          else if pystr_eqb a (s2p "_constants") then Some (PDict [])
+          else if pystr_eqb a (s2p "get_aggregated_deserialization_mapper()") then Some (PList [])
+          else match find_field (c_fields c) a with
+               | Some fd => Some (fld_py (fd_field fd))
+               | None => None
+               end
+      | None => None
+      end.
+
+Definition noop_mapper (c : classdef) : list (pyval * pyval) :=
+  map (fun fd => (PStr (fd_name fd), PStr (fd_name fd))) (c_fields c).
+
+(* an oracle for every call that leaves the translated functions in the covered configuration *)
+Definition full_ext (re_match : N -> pystr -> bool) (e : env) (ens : enums) : extern :=
+  fun name args kw =>
+    if pystr_eqb name (s2p "get_processed_input") then
+      match args with
+      | [k; PDict _; PDict kv] => Ok (match dict_get kv k with Some v => v | None => PNone end)
+      | _ => Raise Unmodelled
+      end
+    else if pystr_eqb name (s2p "raise_errs_if_needed") then
+      match args with
+      | [_; PList errs] => if is_nil errs then Ok PNone else Raise InvalidStructureErr
+      | _ => Raise Unmodelled
+      end
+    else if pystr_eqb name (s2p "aggregate_deserialization_mappers") then
+      match args with
+      | POther _ cn :: _ => match find_class e cn with Some c => Ok (PDict (noop_mapper c)) | None => Raise Unmodelled end
+      | _ => Raise Unmodelled
+      end
+    else if pystr_eqb name call_name then
+      match args with
+      | [POther _ cn] => match find_class e cn with Some c => construct re_match e c kw | None => Raise Unmodelled end
+      | [POther _ cn; w] =>
+          match find_class e cn with
+          | Some c => match c_fields c with
+                      | fd :: _ => construct re_match e c [(fd_name fd, w)]
+                      | [] => Raise TypeError
+                      end
+          | None => Raise Unmodelled
+          end
+      | _ => Raise Unmodelled
+      end
+    else model_ext re_match e ens name args kw.
+
+Lemma full_ext_agrees re_match e ens : ext_agrees re_match e ens (full_ext re_match e ens).
+Proof.
+  destruct (model_ext_agrees re_match e ens) as [H1 H2]. split; intros f j Hf.
+  - rewrite <- (H1 f j Hf). reflexivity.
+  - rewrite <- (H2 f j Hf). reflexivity.
+Qed.
+
+Lemma full_ext_struct_agrees re_match e ens : ext_struct_agrees (full_ext re_match e ens).
+Proof. split; intros; reflexivity. Qed.
+
+(* a class with two fields, a document with an extra key: all the premises of src_structure_internal_eq hold, and
+   both sides construct the same instance *)
+Definition ex_class : classdef :=
+  {| c_name := s2p "P"; c_ancestors := [];
+     c_fields := [ {| fd_name := s2p "a"; fd_field := ex_int; fd_immutable := false; fd_default := None |};
+                   {| fd_name := s2p "b"; fd_field := FSeqEach SeqList (FString no_strc) no_sizec false;
+                      fd_immutable := false; fd_default := None |} ];
+     c_required := [s2p "a"]; c_additional := true; c_ignore_none := false; c_immutable := false; c_hook := HookNone |}.
+Definition ex_env : env := [ex_class].
+Definition ex_flags : dflags := {| df_ignore_invalid := false; df_compact := false |}.
+Definition ex_struct_doc : pyval :=
+  PDict [(PStr (s2p "a"), PNum (NInt 3)); (PStr (s2p "x"), PStr (s2p "extra")); (PStr (s2p "b"), PList [PStr (s2p "s")])].
+
+Example structure_premises_satisfiable :
+  heap_models (class_heap ex_env ex_flags) ex_flags (s2p "P") ex_class /\
+  ext_class_agrees ex_re ex_env (full_ext ex_re ex_env []) (s2p "P") ex_class (noop_mapper ex_class) /\
+  NoDup (map fd_name (c_fields ex_class)) /\
+  struct_covered ex_re ex_env [] (deser_struct ex_re ex_env [] ex_flags 1) true ex_class ex_struct_doc = true /\
+  (3 * fields_depth (c_fields ex_class) <= 20)%nat /\
+  is_ok (deser_struct ex_re ex_env [] ex_flags 2 true (s2p "P") ex_struct_doc) = true.
+Proof.
+  split; [|split; [|split; [|split; [|split]]]].
+  - constructor; try reflexivity.
+    + intros fd [<-|[<-|[]]]; reflexivity.
+    + exists (PBool true). reflexivity.
+  - constructor; try reflexivity. intros fd w H. inversion H.
+  - cbn [c_fields ex_class map fd_name]. constructor; [|constructor; [|constructor]].
+    + intros [H|[]]. discriminate H.
+    + intros [].
+  - vm_compute. reflexivity.
+  - vm_compute. lia.
+  - vm_compute. reflexivity.
+Qed.
+
+(* ------------------------------------------------------------------ assumptions *)
+Print Assumptions loop1_eq.
+Print Assumptions loop2_eq.
+Print Assumptions list_like_each.
+Print Assumptions list_like_pos.
+Print Assumptions list_like_plain.
+Print Assumptions multi_loop_eq.
+Print Assumptions multifield_eq.
+Print Assumptions map_kv_eq.
+Print Assumptions map_any_eq.
+Print Assumptions deser_val_body.
+Print Assumptions src_single_field_eq.
+Print Assumptions src_single_field_model.
+Print Assumptions src_construct_fields_map_gen.
+Print Assumptions src_construct_fields_map_eq.
+Print Assumptions src_extra_keys_list.
+Print Assumptions src_extra_keys_eq.
+Print Assumptions src_structure_internal_step.
+Print Assumptions src_structure_internal_eq.
+Print Assumptions model_ext_agrees.
+Print Assumptions full_ext_agrees.
+Print Assumptions full_ext_struct_agrees.
+Print Assumptions side_conditions_satisfiable.
+Print Assumptions map_order_disagreement.
+Print Assumptions frozenset_disagreement.
+Print Assumptions set_positional_disagreement.
+Print Assumptions structure_premises_satisfiable.
